@@ -460,6 +460,7 @@ struct ShardEnv<'a> {
     inflight: Option<std::fs::File>,
     heartbeat: &'a AtomicU64,
     t0: Instant,
+    dump_dir: Option<PathBuf>,
 }
 
 impl ShardEnv<'_> {
@@ -505,6 +506,16 @@ impl ShardEnv<'_> {
             if r.is_ok() && !ctx.discard {
                 if let Some(fp) = ctx.nontrivial {
                     let fresh = stats.nontrivial.insert(fp);
+                    if fresh {
+                        // optional: dump the bytes of the first non-trivial cases as a
+                        // libFuzzer seed corpus (VERIF_DUMP_CORPUS=<dir>)
+                        if let Some(dir) = &self.dump_dir {
+                            if stats.nontrivial.len() <= 64 {
+                                let p = dir.join(format!("{}-{:016x}", self.sub.name, crate::src::fnv(bytes)));
+                                let _ = std::fs::write(p, bytes);
+                            }
+                        }
+                    }
                     if fresh && want_sample {
                         // re-run to obtain a rendering of this non-trivial case
                         let mut c2 = Ctx::new(self.tier, false, true, self.known.clone());
@@ -989,6 +1000,11 @@ pub fn main(prop: Property) -> ! {
                         inflight,
                         heartbeat: &heartbeats[shard],
                         t0,
+                        dump_dir: std::env::var("VERIF_DUMP_CORPUS").ok().map(|d| {
+                            let p = PathBuf::from(d);
+                            let _ = std::fs::create_dir_all(&p);
+                            p
+                        }),
                     };
                     let (st, ff) = run_shard(&mut env, seed, shard, scale);
                     if ff.is_some() {
